@@ -7,6 +7,9 @@
 #include <hgraph/runtime/logger.h>
 #include <hgraph/types/metadata/type_record_registry.h>
 #include <hgraph/util/scope.h>
+#if defined(HGRAPH_VERIF_HOOKS)
+#include <hgraph/util/verif_hooks.h>
+#endif
 
 #include <fmt/chrono.h>
 #include <fmt/format.h>
@@ -51,6 +54,12 @@ namespace hgraph
 
         [[nodiscard]] DateTime current_wall_time() noexcept
         {
+#if defined(HGRAPH_VERIF_HOOKS)
+            if (const verif::Hooks *hooks = verif::hooks(); hooks != nullptr && hooks->wall_now != nullptr)
+            {
+                return hooks->wall_now(hooks->context);
+            }
+#endif
             return std::chrono::time_point_cast<std::chrono::microseconds>(engine_clock::now());
         }
 
@@ -394,6 +403,21 @@ namespace hgraph
                 // already pending, so this does not wait at all.
                 while (wall_now < target && !wake_requested())
                 {
+#if defined(HGRAPH_VERIF_HOOKS)
+                    if (const verif::Hooks *hooks = verif::hooks(); hooks != nullptr && hooks->wait != nullptr)
+                    {
+                        // Same protocol as the statement below, with the
+                        // wait itself performed by the installed harness.
+                        const bool woken_before_timeout = hooks->wait(
+                            hooks->context,
+                            lock,
+                            std::min(target - wall_now, state.max_wait_slice),
+                            wake_requested);
+                        wall_now = current_wall_time();
+                        if (woken_before_timeout) { break; }
+                        continue;
+                    }
+#endif
                     // The predicate overload absorbs spurious wakes. A false
                     // return is the forced slice timeout; it only refreshes
                     // wall_now and loops unless target has become due.
